@@ -83,7 +83,7 @@ CHECKS = {
             "Coq proof, unbounded in rows and columns, that the vMerge sweep reproduces the document grid under HTML table layout + exhaustive tilings correspondence",
             "Theorem for every well-formed tiling encoding of any size: html_layout (row_spans rows) = Some (doc_grid rows): no overlap, no gap, every position owned by the right cell; "
             "the reader model's own sweep over document elements is proved EQUAL to that abstract sweep (C09_reader_sweep_refines: same cells, same order, own children and colspan, the abstract rowspans; no extras, no messages), "
-            "so the grid theorem holds for what the reader returns (C09_reader_table_layout); "
+            "so the grid theorem holds for what the reader returns (C09_reader_table_layout), and from the XML of a plain w:tbl element whatever its cells contain (C09_xml_table_layout: tiling read off w:gridSpan / w:vMerge, header flags kept); "
             "plus the tr/th/td/thead/tbody/colspan/rowspan structure equations of the converter. The sweep model is compared in Coq with body_xml's calculate_row_spans on all tilings up to 3x3 (4x4 thorough) and random ones up to 6x6.",
             BASE_NOTE + "Domain: merges do not cross the header boundary; rows and cells are direct children.",
             "DESIGN.md §5 C09"),
@@ -113,8 +113,10 @@ CHECKS = {
     "C16": ("proof",
             "Coq proofs that emitted warnings equal the reading-order anomaly trace and are deduplicated + end-to-end correspondence of messages + independent anomaly walk",
             "Theorems: unknown element => exactly one warning naming it, ignored element => none; converter warnings = warnings of the traversal in order; clean subtree => none; messages are NoDup and lose nothing; "
-            "style-map warnings one per distinct unreadable line. Oracle: the message set equals the anomalies an independent walk of the package lists; clean packages yield [].",
-            BASE_NOTE, "DESIGN.md §5 C16"),
+            "style-map warnings one per distinct unreadable line; READER HALF AS A WHOLE (C16_reader_warnings, C16_docx_warnings): for every part in the domain the reader's messages are exactly, once each and in first-occurrence order, the "
+            "warnings a specification written on the XML alone lists (unknown elements, undefined styles, unsupported breaks / symbols / images, non-row table children), for the notes, comments and main parts together; a part where no site fires - "
+            "in particular a structurally tidy one - reads without a message (iff). The statement is evaluated in Coq on every generated package. Oracle: the message set equals the anomalies an independent walk of the package lists; clean packages yield [].",
+            BASE_NOTE + "Domain of the reader theorem: wf_body and every w:fldChar a direct child of a run.", "DESIGN.md §5 C16, §15"),
     "C06": ("proof",
             "Coq print/parse round trip over an abstract syntax of the documented notation (independent printer, denotation) + in-kernel and README-level correspondence",
             "An abstract syntax of everything the README notation can express, an independent printer with arbitrary legal whitespace and backslash escapes, and its denotation are defined in Coq. "
